@@ -63,26 +63,162 @@ Lemma handle_gdn_attached tm c k g n nx : without 46 g = true -> without 46 n = 
   handle tm c (pre_t k ++ g ++ 46 :: n) nx = HOk (sem_opt tm c (DGroupDotName k g n)) false.
 Proof.
   intros Wg Wn NE. cbn [sem_opt].
-  destruct k; cbn [pre_t fk_strict fk_invert]; (destruct g as [|x g];
-   [ dispatch; unfold add_group_dot_name, param_field; cbn [length Nat.ltb Nat.leb skipn app];
-     apply (gdn_core _ _ c _ false [] n Wg Wn NE); reflexivity
-   | dispatch; unfold add_group_dot_name, param_field; cbn [length Nat.ltb Nat.leb skipn app];
-     apply (gdn_core _ _ c _ false (x :: g) n Wg Wn NE); reflexivity ]).
+  destruct k; cbn [pre_t fk_strict fk_invert]; destruct g as [|x g]; dispatch.
+  all: unfold add_group_dot_name, param_field; cbn [length Nat.ltb Nat.leb skipn app].
+  all: eapply gdn_core; [exact Wg | exact Wn | exact NE | reflexivity].
 Qed.
 Lemma handle_gdn_separated tm c k g n : without 46 g = true -> without 46 n = true -> nonempty n = true ->
   handle tm c (pre_t k) (Some (g ++ 46 :: n)) = HOk (sem_opt tm c (DGroupDotName k g n)) true.
 Proof.
   intros Wg Wn NE. cbn [sem_opt].
-  destruct k; cbn [pre_t fk_strict fk_invert]; dispatch; unfold add_group_dot_name, param_field; cbn [length Nat.ltb Nat.leb skipn];
-  apply (gdn_core _ _ c _ true g n Wg Wn NE); reflexivity.
+  destruct k; cbn [pre_t fk_strict fk_invert]; dispatch.
+  all: unfold add_group_dot_name, param_field; cbn [length Nat.ltb Nat.leb skipn].
+  all: eapply gdn_core; [exact Wg | exact Wn | exact NE | reflexivity].
 Qed.
 
 (* ---------------------------------------------------------------- "TEST(g, n)" / "IGNORE_TEST(g, n)" *)
-Lemma handle_test tm c ign g n nx : without 44 g = true -> without 41 n = true ->
-  handle tm c ((if ign then B "IGNORE_TEST(" else B "TEST(") ++ g ++ 44 :: 32 :: n ++ [41]) nx
+Definition lit_test : bytes := B "TEST(".
+Definition lit_ignore_test : bytes := B "IGNORE_TEST(".
+Lemma handle_test tm c (ign : bool) g n nx : without 44 g = true -> without 41 n = true ->
+  handle tm c ((if ign then lit_ignore_test else lit_test) ++ g ++ 44 :: 32 :: n ++ [41]) nx
   = HOk (add_nf (add_gf c (mkf g true false)) (mkf n true false)) false.
 Proof.
   intros Wg Wn. pose proof (verbose_group g (32 :: n ++ [41]) Wg) as G. pose proof (verbose_name g n Wg Wn) as Nm.
-  destruct ign; (destruct g as [|x g];
+  destruct ign; unfold lit_test, lit_ignore_test; (destruct g as [|x g];
     dispatch; unfold add_verbose_test, param_field; cbn [length Nat.ltb Nat.leb skipn app] in *; rewrite G, Nm; reflexivity).
 Qed.
+
+(* ---------------------------------------------------------------- -r *)
+Lemma repeat_fin c r used : r <> 0 -> HOk (set_repeat c (if r =? 0 then 2 else r)) used = HOk (set_repeat c r) used.
+Proof. intro H. apply N.eqb_neq in H. rewrite H. reflexivity. Qed.
+Lemma handle_repeat_attached tm c ds nx : number ds = true ->
+  handle tm c (B "-r" ++ ds) nx = HOk (set_repeat c (dec_value ds)) false.
+Proof.
+  intro Nb. destruct (number_facts ds Nb) as [A [_ [NZ [d [r [E D]]]]]]. subst ds.
+  pose proof (digit_cases d D) as Cs. cbn [In] in Cs.
+  assert (H : handle tm c (B "-r" ++ d :: r) nx = set_repeat_count c (B "-r" ++ d :: r) nx).
+  { repeat (destruct Cs as [Cs|Cs]; [subst d; reflexivity|]). destruct Cs. }
+  rewrite H. unfold set_repeat_count. cbn [app length Nat.ltb Nat.leb skipn]. rewrite A. apply N.eqb_neq in NZ. rewrite NZ. reflexivity.
+Qed.
+Lemma handle_repeat_separated tm c ds : number ds = true ->
+  handle tm c (B "-r") (Some ds) = HOk (set_repeat c (dec_value ds)) true.
+Proof.
+  intro Nb. destruct (number_facts ds Nb) as [A [_ [NZ _]]].
+  change (handle tm c (B "-r") (Some ds)) with (set_repeat_count c (B "-r") (Some ds)).
+  unfold set_repeat_count. cbn [length Nat.ltb Nat.leb]. rewrite A. apply N.eqb_neq in NZ. rewrite NZ. reflexivity.
+Qed.
+Lemma handle_repeat_bare tm c rest : head_ok rest = true ->
+  handle tm c (B "-r") (hd_error rest) = HOk (set_repeat c 2) false.
+Proof.
+  intro H. change (handle tm c (B "-r") (hd_error rest)) with (set_repeat_count c (B "-r") (hd_error rest)).
+  unfold set_repeat_count. cbn [length Nat.ltb Nat.leb]. destruct rest as [|b rest]; cbn [hd_error]; [reflexivity|].
+  cbn [head_ok] in H. unfold nonnum in H. apply andb_true_iff in H. destruct H as [H _]. apply N.eqb_eq in H. rewrite H. reflexivity.
+Qed.
+
+(* ---------------------------------------------------------------- -s *)
+Lemma time_seed_nonzero tm : ((if tm mod 4294967296 =? 0 then 1 else tm mod 4294967296) =? 0) = false.
+Proof. destruct (tm mod 4294967296 =? 0) eqn:E; [reflexivity | exact E]. Qed.
+Lemma handle_shuffle_attached tm c ds nx : number ds = true ->
+  handle tm c (B "-s" ++ ds) nx = HOk (set_seed (set_shuf c true) (dec_value ds)) false.
+Proof.
+  intro Nb. destruct (number_facts ds Nb) as [_ [A [NZ [d [r [E D]]]]]]. subst ds.
+  pose proof (digit_cases d D) as Cs. cbn [In] in Cs.
+  assert (H : handle tm c (B "-s" ++ d :: r) nx = set_shuffle tm c (B "-s" ++ d :: r) nx).
+  { repeat (destruct Cs as [Cs|Cs]; [subst d; reflexivity|]). destruct Cs. }
+  rewrite H. unfold set_shuffle. cbn [app length Nat.ltb Nat.leb skipn]. rewrite A. apply N.eqb_neq in NZ. rewrite NZ. reflexivity.
+Qed.
+Lemma handle_shuffle_separated tm c ds : number ds = true ->
+  handle tm c (B "-s") (Some ds) = HOk (set_seed (set_shuf c true) (dec_value ds)) true.
+Proof.
+  intro Nb. destruct (number_facts ds Nb) as [_ [A [NZ _]]].
+  change (handle tm c (B "-s") (Some ds)) with (set_shuffle tm c (B "-s") (Some ds)).
+  unfold set_shuffle. cbn [length Nat.ltb Nat.leb]. rewrite A. apply N.eqb_neq in NZ. rewrite NZ. reflexivity.
+Qed.
+Lemma handle_shuffle_bare tm c rest : head_ok rest = true ->
+  handle tm c (B "-s") (hd_error rest) = HOk (sem_opt tm c (DShuffle None)) false.
+Proof.
+  intro H. change (handle tm c (B "-s") (hd_error rest)) with (set_shuffle tm c (B "-s") (hd_error rest)).
+  unfold set_shuffle. cbn [length Nat.ltb Nat.leb sem_opt]. destruct rest as [|b rest]; cbn [hd_error].
+  - rewrite time_seed_nonzero. reflexivity.
+  - cbn [head_ok] in H. unfold nonnum in H. apply andb_true_iff in H. destruct H as [_ H]. rewrite H. rewrite time_seed_nonzero. reflexivity.
+Qed.
+
+(* ---------------------------------------------------------------- what a documented vector starts with *)
+Lemma head_render_opt o sp : In sp (render_opt o) -> exists a t, sp = a :: t /\ nonnum a = true.
+Proof.
+  destruct o; cbn [render_opt both In];
+  try (intros [<-|[]]; eexists; eexists; split; [reflexivity | reflexivity]).
+  - destruct n as [ds|]; cbn [both In]; intros [<-|[<-|[]]] || intros [<-|[]]; eexists; eexists; (split; [reflexivity | reflexivity]).
+  - destruct seed as [ds|]; cbn [both In]; intros [<-|[<-|[]]] || intros [<-|[]]; eexists; eexists; (split; [reflexivity | reflexivity]).
+  - destruct k; intros [<-|[<-|[]]]; eexists; eexists; (split; [reflexivity | reflexivity]).
+  - destruct k; intros [<-|[<-|[]]]; eexists; eexists; (split; [reflexivity | reflexivity]).
+  - destruct k; intros [<-|[<-|[]]]; eexists; eexists; (split; [reflexivity | reflexivity]).
+  - destruct ignored; intros [<-|[]]; eexists; eexists; (split; [reflexivity | reflexivity]).
+  - destruct o; intros [<-|[<-|[]]]; eexists; eexists; (split; [reflexivity | reflexivity]).
+  - intros [<-|[<-|[]]]; eexists; eexists; (split; [reflexivity | reflexivity]).
+Qed.
+Lemma in_render_cons o r argv : In argv (render (o :: r)) -> exists sp rest, In sp (render_opt o) /\ In rest (render r) /\ argv = sp ++ rest.
+Proof.
+  cbn [render]. intro H. apply in_flat_map in H. destruct H as [sp [H1 H2]]. apply in_map_iff in H2. destruct H2 as [rest [E H2]].
+  exists sp, rest. auto.
+Qed.
+Lemma head_render opts argv : In argv (render opts) -> head_ok argv = true.
+Proof.
+  destruct opts as [|o r].
+  - cbn. intros [<-|[]]. reflexivity.
+  - intro H. apply in_render_cons in H. destruct H as [sp [rest [H1 [_ ->]]]].
+    destruct (head_render_opt o sp H1) as [a [t [-> Nn]]]. exact Nn.
+Qed.
+
+(* ---------------------------------------------------------------- one documented option, any spelling: exactly its documented effect *)
+Lemma step_opt tm c o sp rest :
+  opt_ok o = true -> is_help o = false -> In sp (render_opt o) -> head_ok rest = true ->
+  parse_args tm c (sp ++ rest) = parse_args tm (sem_opt tm c o) rest.
+Proof.
+  intros OK NH I HR.
+  destruct o; try discriminate NH; cbn [render_opt both In] in I; cbn [opt_ok] in OK.
+  1-12: destruct I as [<-|[]]; reflexivity.
+  - (* -r *) destruct n as [ds|]; cbn [both In] in I.
+    + destruct I as [<-|[<-|[]]]; cbn [app sem_opt].
+      * apply parse_step_one. apply handle_repeat_attached. exact OK.
+      * apply parse_step_two. apply handle_repeat_separated. exact OK.
+    + destruct I as [<-|[]]. cbn [app sem_opt]. apply parse_step_one. apply handle_repeat_bare. exact HR.
+  - (* -s *) destruct seed as [ds|]; cbn [both In] in I.
+    + destruct I as [<-|[<-|[]]]; cbn [app sem_opt].
+      * apply parse_step_one. apply handle_shuffle_attached. exact OK.
+      * apply parse_step_two. apply handle_shuffle_separated. exact OK.
+    + destruct I as [<-|[]]. cbn [app]. apply parse_step_one. apply handle_shuffle_bare. exact HR.
+  - (* group *) destruct I as [<-|[<-|[]]]; cbn [app sem_opt].
+    + apply parse_step_one. apply handle_group_attached. exact OK.
+    + apply parse_step_two. apply handle_group_separated.
+  - (* name *) destruct I as [<-|[<-|[]]]; cbn [app sem_opt].
+    + apply parse_step_one. apply handle_name_attached. exact OK.
+    + apply parse_step_two. apply handle_name_separated.
+  - (* group.name *) apply andb_true_iff in OK. destruct OK as [OK NE]. apply andb_true_iff in OK. destruct OK as [Wg Wn].
+    destruct I as [<-|[<-|[]]]; cbn [app].
+    + apply parse_step_one. apply handle_gdn_attached; assumption.
+    + apply parse_step_two. apply handle_gdn_separated; assumption.
+  - (* TEST *) apply andb_true_iff in OK. destruct OK as [Wg Wn]. destruct I as [<-|[]]. cbn [app sem_opt].
+    apply parse_step_one. apply (handle_test tm c ignored g n _ Wg Wn).
+  - (* -o *) destruct I as [<-|[<-|[]]]; cbn [app].
+    + apply parse_step_one. apply handle_output_attached.
+    + apply parse_step_two. apply handle_output_separated.
+  - (* -k *) destruct I as [<-|[<-|[]]]; cbn [app sem_opt].
+    + apply parse_step_one. apply handle_package_attached. exact OK.
+    + apply parse_step_two. apply handle_package_separated. exact OK.
+Qed.
+
+(* ---------------------------------------------------------------- the refinement *)
+Lemma parse_render tm : forall opts c argv, forallb opt_ok opts = true -> In argv (render opts) ->
+  parse_args tm c argv = sem_from tm c opts.
+Proof.
+  induction opts as [|o r IH]; intros c argv OK I.
+  - cbn in I. destruct I as [<-|[]]. reflexivity.
+  - cbn [forallb] in OK. apply andb_true_iff in OK. destruct OK as [Oo Or].
+    apply in_render_cons in I. destruct I as [sp [rest [I1 [I2 ->]]]]. cbn [sem_from].
+    destruct (is_help o) eqn:Hh.
+    + destruct o; try discriminate Hh. cbn in I1. destruct I1 as [<-|[]]. reflexivity.
+    + rewrite (step_opt tm c o sp rest Oo Hh I1 (head_render r rest I2)). apply IH; assumption.
+Qed.
+Lemma meaning tm prog opts argv : forallb opt_ok opts = true -> In argv (render opts) -> parse tm (prog :: argv) = sem tm opts.
+Proof. intros OK I. unfold parse, sem. cbn [tl]. apply parse_render; assumption. Qed.
